@@ -42,6 +42,9 @@ type Client struct {
 	RecvRaw []byte
 	// RecvPlain keeps the whole decoded stream.
 	RecvPlain []byte
+	startErr error
+	// EncFrom is the offset in the received byte stream at which the encrypted session began.
+	EncFrom int
 
 	// Verify state
 	vPriv, vPub, aPub [32]byte
@@ -78,6 +81,9 @@ func (c *Client) Send(b []byte) error {
 
 // fill reads more bytes from the socket into the decoded stream.
 func (c *Client) fill() error {
+	if c.startErr != nil {
+		return fmt.Errorf("controller cannot decrypt accessory frame #%d: %v", c.opener.Ctr, c.startErr)
+	}
 	buf := make([]byte, 4096)
 	n, err := c.Conn.Read(buf)
 	if n > 0 {
@@ -409,8 +415,20 @@ func (c *Client) StartSession(shared [32]byte) {
 	c.opener = FrameOpener{Key: c.a2c}
 	c.sendCtr = 0
 	c.Enc = true
-	// anything already buffered in plain form after M4 would be a protocol error; keep it
-	// for the parser to complain about.
+	// bytes that arrived in the same segment after the last plaintext response already
+	// belong to the encrypted session (e.g. a keep-alive sent right after M4)
+	left := c.plain
+	c.plain = nil
+	c.RecvPlain = c.RecvPlain[:len(c.RecvPlain)-len(left)]
+	c.EncFrom = len(c.RecvRaw) - len(left)
+	if len(left) > 0 {
+		p, err := c.opener.Feed(left)
+		c.plain = append(c.plain, p...)
+		c.RecvPlain = append(c.RecvPlain, p...)
+		if err != nil {
+			c.startErr = err
+		}
+	}
 }
 
 // SessionState exposes keys and counters (for the adversary and the wire oracle).
